@@ -67,7 +67,11 @@ def _post(base, recs, stats):
         res = rec.res
         seen = cbs0[k - 1]
         if res is None:
-            continue  # C08's business
+            exc = rec.exc or ("?", "", "")
+            viol.append({"key": f"stop-raises:{exc[0]}", "case": rec.case,
+                         "what": f"callback raised StopIteration at call {k}: minimize raised {exc[0]}: {exc[1]} "
+                                 f"instead of returning the point with status 3"})
+            continue
         what = None
         if int(res.status) != 3 or int(res.nfev) != k:
             what = ("stop-status-nfev", f"callback raised StopIteration at call {k}: status={res.status} nfev={res.nfev}")
